@@ -18,7 +18,9 @@ Single == [kind : {"gpt1"}, copy : {"primary", "backup", "both"}, field : Fields
 FieldPairs == {<<"arrlba", "count">>, <<"arrlba", "esize">>, <<"count", "esize">>}
 Pairs  == {p \in [kind : {"gpt2"}, copy : {"primary", "both"}, f1 : SizeFields, v1 : Vals, f2 : SizeFields, v2 : Vals, fix : {"yes"}] : <<p.f1, p.f2>> \in FieldPairs}
 Trunc  == [kind : {"trunc"}, len : {"zero", "s1", "s2", "midarr", "nobackup", "oddbyte"}, lss : {"512", "4096"}]
-MbrF   == [kind : {"mbr"}, field : {"sig", "boot", "type", "start", "size"}, val : Vals, slot : {"1", "4"}]
+\* base: all four slots in use / one partition and three unused (all-zero) slots / the protective MBR of a
+\* valid GPT disk (slot 1 = 0xEE, three unused slots): a damaged field of an UNUSED slot is a fault too
+MbrF   == [kind : {"mbr"}, base : {"full", "one", "pmbr"}, field : {"sig", "boot", "type", "start", "size"}, val : Vals, slot : {"1", "2", "4"}]
 RandN(n) == [kind : {"rand"}, n : 1..n]
 Space(nrand, withPairs) == Single \cup Trunc \cup MbrF \cup RandN(nrand) \cup (IF withPairs THEN Pairs ELSE {})
 
